@@ -42,33 +42,39 @@ Theorem scalar_window_valid :
     exists l r e, scalar_narrow (prefixes keys) (prefix_of k) = Done (l, r, e) /\ window_valid keys k l r.
 Proof. exact scalar_window_l. Qed.
 
-(* CPU with AVX2, the code as it is: equal to binary search whenever the narrowing does not drop a slot
-   whose prefix equals the probe's (defect_class = 0) ... *)
+(* CPU with AVX2, the code as it is since commit 6f8c0a4 (fix of findings F-C30-1/2): for every
+   well-formed page of any size and every probe, find_key_simd = binary search - no exception class *)
 Theorem avx2_path_correct :
   forall keys k, strict_sorted keys = true -> keys_ok keys = true -> bytes_ok k = true ->
-    defect_class keys k = 0 -> find_avx2 keys k = bsearch keys k.
+    find_avx2 keys k = bsearch keys k.
 Proof. exact avx2_path_correct_thm. Qed.
 
-(* ... and NOT equal in general: class 1, `lt_mask == 0 => right = batch_start` on a batch holding the
-   target prefix (9 keys sharing one prefix: the 6th key is reported NotFound(0)) *)
-Theorem avx2_refuted_lt_mask_zero :
-  exists keys k, strict_sorted keys = true /\ keys_ok keys = true /\ bytes_ok k = true /\
-    defect_class keys k = 1 /\ bsearch keys k = Done (Found 5) /\ find_avx2 keys k = Done (NotFound 0).
-Proof. exact avx2_refuted_lt_mask_zero_l. Qed.
-
-(* class 2, the final step cuts the window at the end of the batch although the run of equal prefixes
-   continues (16 keys, key 14 is reported NotFound(12)) *)
-Theorem avx2_refuted_batch_end :
-  exists keys k, strict_sorted keys = true /\ keys_ok keys = true /\ bytes_ok k = true /\
-    defect_class keys k = 2 /\ bsearch keys k = Done (Found 14) /\ find_avx2 keys k = Done (NotFound 12).
-Proof. exact avx2_refuted_batch_end_l. Qed.
-
-(* the proposed repair (fixes/C30-avx2-equal-prefix.diff, modelled as avx2_loop_fixed) is correct for
-   every well-formed page and probe *)
-Theorem avx2_repaired_correct :
+(* HISTORICAL, about the loop as it was BEFORE commit 6f8c0a4 (Model avx2_loop_prefix_bug; not the current
+   code): it was equal to binary search exactly outside the class of inputs on which its narrowing dropped a
+   slot whose prefix equals the probe's ... *)
+Theorem prefix_bug_correct_outside_class :
   forall keys k, strict_sorted keys = true -> keys_ok keys = true -> bytes_ok k = true ->
-    find_avx2_fixed keys k = bsearch keys k.
-Proof. exact avx2_fixed_correct_thm. Qed.
+    defect_class keys k = 0 -> find_avx2_prefix_bug keys k = bsearch keys k.
+Proof. exact prefix_bug_correct_outside_class_thm. Qed.
+
+(* ... and wrong inside it: class 1, `lt_mask == 0 => right = batch_start` on a batch holding the target
+   prefix (9 keys sharing one prefix: the 6th key was reported NotFound(0)); the current code finds it *)
+Theorem prefix_bug_refuted_lt_mask_zero :
+  exists keys k, strict_sorted keys = true /\ keys_ok keys = true /\ bytes_ok k = true /\
+    defect_class keys k = 1 /\ bsearch keys k = Done (Found 5) /\ find_avx2_prefix_bug keys k = Done (NotFound 0).
+Proof. exact prefix_bug_refuted_lt_mask_zero_l. Qed.
+
+(* class 2, the final step cut the window at the end of the batch although the run of equal prefixes
+   continued (16 keys, key 14 was reported NotFound(12)) *)
+Theorem prefix_bug_refuted_batch_end :
+  exists keys k, strict_sorted keys = true /\ keys_ok keys = true /\ bytes_ok k = true /\
+    defect_class keys k = 2 /\ bsearch keys k = Done (Found 14) /\ find_avx2_prefix_bug keys k = Done (NotFound 12).
+Proof. exact prefix_bug_refuted_batch_end_l. Qed.
+
+(* the current code on the two former witnesses *)
+Theorem former_witnesses_now_found :
+  find_avx2 wit1_keys wit1_probe = Done (Found 5) /\ find_avx2 wit2_keys wit2_probe = Done (Found 14).
+Proof. exact avx2_on_former_witnesses. Qed.
 
 (* any page (sorted or not, any byte values), any probe, either CPU path: the search terminates within
    the model's fuel and takes no Panic branch (no usize underflow, no read outside the slot array) *)
@@ -91,13 +97,14 @@ Theorem avx2_unsigned_cmp :
 Proof. exact lane_lt_unsigned. Qed.
 
 (* non-vacuity: a well-formed 20-key page with prefix ties (6 + 8 + 6 keys on three prefixes, one of them
-   with the high bit set) outside the defect classes for these probes, searched through the vectorized loop (ex_keys, Proof/LeafSearch.v);
-   both outcomes occur; keys shorter than 4 bytes *)
+   with the high bit set) searched through the vectorized loop (ex_keys, Proof/LeafSearch.v); both outcomes
+   occur, also for a probe the pre-fix loop got wrong (defect_class 1); keys shorter than 4 bytes *)
 Example c30_witness :
   strict_sorted ex_keys = true /\ keys_ok ex_keys = true /\
-  defect_class ex_keys [97; 97; 97; 97; 3] = 0 /\ find_avx2 ex_keys [97; 97; 97; 97; 3] = Done (Found 3) /\
-  defect_class ex_keys [97; 97; 97; 99] = 0 /\ find_avx2 ex_keys [97; 97; 97; 99] = Done (NotFound 14) /\
-  find_scalar ex_keys [97; 97; 97; 98; 7] = Done (Found 13) /\ find_avx2_fixed ex_keys [97; 97; 97; 98; 7] = Done (Found 13) /\
+  find_avx2 ex_keys [97; 97; 97; 97; 3] = Done (Found 3) /\
+  find_avx2 ex_keys [97; 97; 97; 99] = Done (NotFound 14) /\
+  find_scalar ex_keys [97; 97; 97; 98; 7] = Done (Found 13) /\ find_avx2 ex_keys [97; 97; 97; 98; 7] = Done (Found 13) /\
+  defect_class wit1_keys wit1_probe = 1 /\ find_avx2 wit1_keys wit1_probe = Done (Found 5) /\
   strict_sorted [[]; [0]; [0; 0]; [0; 0; 0; 0; 0]; [97]] = true /\
   find_scalar [[]; [0]; [0; 0]; [0; 0; 0; 0; 0]; [97]] [0; 0; 0] = Done (NotFound 3) /\
   prefix_of [97; 98] = 1633812480.
@@ -108,10 +115,11 @@ Check reference_found : forall keys k i, strict_sorted keys = true -> lin_search
 Check reference_notfound : forall keys k i, lin_search keys k = NotFound i -> 0 <= i <= klen keys /\ (forall j, (j < Z.to_nat i)%nat -> lex_cmp (nth j keys []) k = Lt) /\ (i < klen keys -> lex_cmp (nth (Z.to_nat i) keys []) k = Gt).
 Check scalar_path_correct : forall keys k, strict_sorted keys = true -> keys_ok keys = true -> bytes_ok k = true -> find_scalar keys k = bsearch keys k /\ bsearch keys k = Done (lin_search keys k).
 Check scalar_window_valid : forall keys k, strict_sorted keys = true -> keys_ok keys = true -> bytes_ok k = true -> 0 < klen keys -> exists l r e, scalar_narrow (prefixes keys) (prefix_of k) = Done (l, r, e) /\ window_valid keys k l r.
-Check avx2_path_correct : forall keys k, strict_sorted keys = true -> keys_ok keys = true -> bytes_ok k = true -> defect_class keys k = 0 -> find_avx2 keys k = bsearch keys k.
-Check avx2_refuted_lt_mask_zero : exists keys k, strict_sorted keys = true /\ keys_ok keys = true /\ bytes_ok k = true /\ defect_class keys k = 1 /\ bsearch keys k = Done (Found 5) /\ find_avx2 keys k = Done (NotFound 0).
-Check avx2_refuted_batch_end : exists keys k, strict_sorted keys = true /\ keys_ok keys = true /\ bytes_ok k = true /\ defect_class keys k = 2 /\ bsearch keys k = Done (Found 14) /\ find_avx2 keys k = Done (NotFound 12).
-Check avx2_repaired_correct : forall keys k, strict_sorted keys = true -> keys_ok keys = true -> bytes_ok k = true -> find_avx2_fixed keys k = bsearch keys k.
+Check avx2_path_correct : forall keys k, strict_sorted keys = true -> keys_ok keys = true -> bytes_ok k = true -> find_avx2 keys k = bsearch keys k.
+Check prefix_bug_correct_outside_class : forall keys k, strict_sorted keys = true -> keys_ok keys = true -> bytes_ok k = true -> defect_class keys k = 0 -> find_avx2_prefix_bug keys k = bsearch keys k.
+Check prefix_bug_refuted_lt_mask_zero : exists keys k, strict_sorted keys = true /\ keys_ok keys = true /\ bytes_ok k = true /\ defect_class keys k = 1 /\ bsearch keys k = Done (Found 5) /\ find_avx2_prefix_bug keys k = Done (NotFound 0).
+Check prefix_bug_refuted_batch_end : exists keys k, strict_sorted keys = true /\ keys_ok keys = true /\ bytes_ok k = true /\ defect_class keys k = 2 /\ bsearch keys k = Done (Found 14) /\ find_avx2_prefix_bug keys k = Done (NotFound 12).
+Check former_witnesses_now_found : find_avx2 wit1_keys wit1_probe = Done (Found 5) /\ find_avx2 wit2_keys wit2_probe = Done (Found 14).
 Check find_key_total : forall avx2 keys k, exists s, find_key avx2 keys k = Done s.
 Check prefix_monotone : forall a b, bytes_ok a = true -> bytes_ok b = true -> lex_cmp a b = Lt -> prefix_of a <= prefix_of b.
 Check prefix_lt_implies_lt : forall a b, bytes_ok a = true -> bytes_ok b = true -> prefix_of a < prefix_of b -> lex_cmp a b = Lt.
@@ -123,9 +131,10 @@ Print Assumptions reference_notfound.
 Print Assumptions scalar_path_correct.
 Print Assumptions scalar_window_valid.
 Print Assumptions avx2_path_correct.
-Print Assumptions avx2_refuted_lt_mask_zero.
-Print Assumptions avx2_refuted_batch_end.
-Print Assumptions avx2_repaired_correct.
+Print Assumptions prefix_bug_correct_outside_class.
+Print Assumptions prefix_bug_refuted_lt_mask_zero.
+Print Assumptions prefix_bug_refuted_batch_end.
+Print Assumptions former_witnesses_now_found.
 Print Assumptions find_key_total.
 Print Assumptions prefix_monotone.
 Print Assumptions prefix_lt_implies_lt.
